@@ -89,3 +89,10 @@ Definition c18_progress_drains_current : bool := true.
 Definition c18_close_unsubscribes_current : bool := true.
 Definition c18_rejects_dotdot_current : bool := true.
 Definition c18_destroy_inline_current : bool := true.
+
+(** C02 (holes): base_store.go Load, after an unlimited load, hands the link targets of the
+    loaded entries that are not in the log to the replicator, which marks the unreachable ones
+    failed and retries them with the next request (true, fix: commit "Load hands the ancestors
+    it could not load to the replicator"); false = before: a restart forgot the missing
+    ancestors of held entries and nothing fetched them any more.  Model/NetHoles.v [rm]. *)
+Definition c02_records_missing_current : bool := true.
